@@ -77,6 +77,13 @@ class DataIndexView(BaseDataIndex):
         def _node_factory(_, key, children, *args) -> Optional[_FilterNode]:
             return _FilterNode(key, children, *args)
 
+        if ensure_loaded and prefix:
+            # NOTE: the prefix may point inside a directory that has not been
+            # loaded yet (same as DataIndex.iteritems).
+            item = self._index.longest_prefix(prefix)
+            if item:
+                self._index._load(*item)
+
         kwargs = {"prefix": prefix} if prefix is not None else {}
         stack = deque([self.traverse(_node_factory, **kwargs)])
         while stack:
